@@ -38,6 +38,21 @@ var solvers = []solverSpec{
 	{"z3-5.1.0-norelevancy", "z3-new", []string{"-smt2", "smt.relevancy=0"}},
 }
 
+// prlimitBin: util-linux prlimit, used to give every solver process a CPU-time budget
+var prlimitBin = func() string {
+	if os.Getenv("KBV_WALLCLOCK") != "" {
+		return ""
+	}
+	p, err := exec.LookPath("prlimit")
+	if err != nil {
+		return ""
+	}
+	return p
+}()
+
+// wallFactor: the wall-clock guard is this many times the CPU budget
+const wallFactor = 10
+
 var reCvc5Lambda = regexp.MustCompile(`\(lambda `)
 
 func dialect(s solverSpec, q string) string {
@@ -54,7 +69,19 @@ func runSolvers(query string, file string, timeout time.Duration, wantModel bool
 	if err := os.WriteFile(file, []byte(query), 0o644); err != nil {
 		return SolverResult{Status: "error", Output: err.Error()}
 	}
-	ctx, cancel := context.WithTimeout(context.Background(), timeout)
+	// The limit is CPU time per solver process (prlimit), not wall-clock time: on a machine that is
+	// busy with other checks a query that needs ten seconds of work must not turn into a timeout --
+	// and so into an alarm -- because it was scheduled a tenth of the time. The wall-clock guard is
+	// only there to end a run on a machine that gives the solvers no time at all.
+	cpuSecs := int(timeout.Seconds() + 0.5)
+	if cpuSecs < 1 {
+		cpuSecs = 1
+	}
+	wall := timeout
+	if prlimitBin != "" {
+		wall = timeout * wallFactor
+	}
+	ctx, cancel := context.WithTimeout(context.Background(), wall)
 	defer cancel()
 	type one struct {
 		status, out, solver string
@@ -81,7 +108,12 @@ func runSolvers(query string, file string, timeout time.Duration, wantModel bool
 			}
 			args = append(args, f)
 			start := time.Now()
-			cmd := exec.CommandContext(ctx, s.bin, args...)
+			bin := s.bin
+			if prlimitBin != "" {
+				args = append([]string{fmt.Sprintf("--cpu=%d", cpuSecs), s.bin}, args...)
+				bin = prlimitBin
+			}
+			cmd := exec.CommandContext(ctx, bin, args...)
 			// a solver must not outlive this process (a killed check would leave it spinning)
 			cmd.SysProcAttr = &syscall.SysProcAttr{Pdeathsig: syscall.SIGKILL}
 			var out bytes.Buffer
@@ -89,6 +121,15 @@ func runSolvers(query string, file string, timeout time.Duration, wantModel bool
 			cmd.Stderr = &out
 			_ = cmd.Run()
 			secs := time.Since(start).Seconds()
+			cpuKilled := false
+			if ps := cmd.ProcessState; ps != nil {
+				if prlimitBin != "" {
+					secs = (ps.UserTime() + ps.SystemTime()).Seconds()
+				}
+				if ws, ok := ps.Sys().(syscall.WaitStatus); ok && ws.Signaled() && (ws.Signal() == syscall.SIGXCPU || (ws.Signal() == syscall.SIGKILL && ctx.Err() == nil)) {
+					cpuKilled = true
+				}
+			}
 			_ = os.Remove(f)
 			text := out.String()
 			first := strings.TrimSpace(strings.SplitN(strings.TrimSpace(text), "\n", 2)[0])
@@ -97,7 +138,7 @@ func runSolvers(query string, file string, timeout time.Duration, wantModel bool
 			case "unsat", "sat", "unknown":
 				status = first
 			default:
-				if ctx.Err() != nil {
+				if ctx.Err() != nil || cpuKilled {
 					status = "timeout"
 				} else {
 					status = "error"
